@@ -1,10 +1,12 @@
 """C11: independent metadata requests are issued concurrently."""
 import vlib
-from props import asynclib as al, solverstream as ss
+from props import asynclib as al, solverstream as ss, enctie
 
-THEOREMS = ["C11_eager_checker"]
+THEOREMS = ["C11_eager_checker", "C11_model_eager"]
 CHECKER = ("coqc Props/C11.v + Print Assumptions; harness async_cases --kind c11: schedule-controlled executor logs every "
-           "quiescent point (solve future Pending without self-wake) -> extracted eagerb on the history")
+           "quiescent point (solve future Pending without self-wake) -> extracted eagerb on the history; harness solve_cases under "
+           "gated schedules on fan-out universes with hook log -> extracted enc_run follows the logged completions: clause database "
+           "equal clause for clause (tie of C11_model_eager)")
 
 
 def run(res, tier, seed, replay):
@@ -16,6 +18,22 @@ def run(res, tier, seed, replay):
         streams = [("fanout", 88, 200 * k), ("fanout", 80, 100 * k), ("small", 255, 150 * k), ("conflict", 127, 80 * k)]
         recs, hangs = al.run_async("c11", streams, seed + 79)
     al.judge(recs)
+    if replay:
+        erecs = []
+    else:
+        estreams = [("fanout", 88, "gated:fifo", "debug", 60 * k), ("fanout", 88, "gated:lifo", "debug", 60 * k),
+                    ("fanout", 80, "gated:random", "debug", 60 * k), ("small", 255, "gated:random", "debug", 100 * k)]
+        erecs, eh = ss.run_streams(estreams, seed + 83, dump=True)
+        hangs += eh
+    enctie.annotate(erecs)
+    for r in erecs:
+        if "enc" not in r:
+            continue
+        res.count([ss.case_key(r["case"]), r["stream"], "enc"], r["enc"].get("n_calls", 0) >= 6)
+        if not enctie.ok(r, ("db", "calls", "done")):
+            res.tie_break(f"encoder correspondence no longer checks under {r['stream']}: the implementation's clause database / "
+                          f"requests differ from the model following the logged completions, or a future was still pending when encode "
+                          f"returned (theorem C11_model_eager): {r['enc']}", enctie.replay(r))
     nq, maxpend = 0, 0
     for r in recs:
         key = ss.case_key(r["case"])
@@ -33,7 +51,7 @@ def run(res, tier, seed, replay):
                               f"issued ({run['label']}, pending sets {qs[:4]})", al.replay_obj(r, run))
     res.rule = ("fan-out universes (2-16 root requirements on distinct packages, unions, nested fan-outs, hints) plus general ones, "
                 "under FIFO / LIFO / random completion orders; non-trivial = run with a quiescent point at which >= 3 requests are in flight")
-    res.extra.update({"quiescent_points": nq, "max_in_flight": maxpend, "hangs": len(hangs)})
+    res.extra.update({"quiescent_points": nq, "max_in_flight": maxpend, "hangs": len(hangs)}, **enctie.stats(erecs))
     return res.finish(CHECKER, vlib.TRUSTED_BASE,
                       ["partial by nature: says nothing about wall-clock overlap inside the provider",
                        "only first solves on fresh solvers (cached dependency information of earlier solves is not visible in the history)"])
